@@ -6,6 +6,8 @@ import "verifharness/common"
 var units = map[string]common.UnitFunc{
 	"c04rbc": unitC04rbc,
 	"byzrbc": unitByzRbc,
+	"c04orch": unitC04orch,
+	"byzorch": unitByzOrch,
 }
 
 func main() { common.ChildMain(units) }
